@@ -145,6 +145,8 @@ class SymRat(object):
         return s + (-o)
 
     def __sx_int__(s):
+        if s.den == 1:
+            return s.num
         # int() truncates toward zero
         q = abs(s.num) // s.den
         from .symint import ite
